@@ -31,6 +31,19 @@ structure World where
       absent or unrenderable); the renderers themselves are modelled in Model/Hypertext.lean etc.
       and the numbering is C12's subject — here only the list is needed (UI model) -/
   links : O → Str → List Str := fun _ _ => []
+  /-- `time.Parse(time.RFC3339, ·)` as an instant (nanoseconds); the zero `time.Time` is `zeroTime` -/
+  parseTime : Str → Option Int := fun _ => none
+
+/-- The zero `time.Time` (year 1): before every parsed instant. -/
+def zeroTime : Int := -62135596800000000000
+
+/-- `o.GetTime(key)` as `Timestamp()` uses it: the instant, absent, or an error. -/
+def getTime (w : World) (o : O) (key : Str) : Obj.R Int :=
+  match getString o key with
+  | .error e => .error e
+  | .ok s => match w.parseTime s with
+    | some t => .ok t
+    | none => .error .wrong
 
 /-- `obj.GetURL("id")`: absent ⇒ no id; unparsable / wrong type ⇒ error. -/
 def getId (w : World) (o : O) : Except Unit (Option U) :=
@@ -147,6 +160,7 @@ structure ActorM where
   name : Obj.R Str        -- ok / absent / wrong
   posts : Except Err CollM
   bioLinks : List Str := []
+  joined : Obj.R Int := .error .absent
   obj : O                  -- ghost: the JSON this actor was built from
 
 def newActorFromObject (w : World) (o : O) (id : Option U) : Except BErr ActorM :=
@@ -156,7 +170,8 @@ def newActorFromObject (w : World) (o : O) (id : Option U) : Except BErr ActorM 
   | .ok kind =>
     if !actorKinds.contains kind then .error .wrongType
     else .ok { kind := kind, id := id, name := getString o "name".toList,
-               posts := getCollection w o "outbox".toList id, bioLinks := w.links o "summary".toList, obj := o }
+               posts := getCollection w o "outbox".toList id, bioLinks := w.links o "summary".toList,
+               joined := getTime w o "published".toList, obj := o }
 
 def newActor (w : World) (input : JVal) (source : Option U) : Except BErr ActorM :=
   match fetchUnknown w input source with
@@ -191,6 +206,7 @@ structure PostM where
   recipients : List AorF
   comments : Except Err CollM
   bodyLinks : List Str := []
+  created : Obj.R Int := .error .absent
   obj : O
 
 def creatorOk (id : Option U) : AorF → Bool
@@ -223,7 +239,7 @@ def newPostFromObject (w : World) (o : O) (id : Option U) : Except BErr PostM :=
       if creators.all (creatorOk id) then
         .ok { kind := kind, id := id, title := getString o "name".toList, parent := parent,
               creators := creators, recipients := recipients, comments := comments,
-              bodyLinks := w.links o "content".toList, obj := o }
+              bodyLinks := w.links o "content".toList, created := getTime w o "published".toList, obj := o }
       else .error .other
 
 def newPost (w : World) (input : JVal) (source : Option U) : Except BErr PostM :=
@@ -251,6 +267,7 @@ structure ActivityM where
   id : Option U
   actor : Except Unit ActorM
   target : Target
+  created : Obj.R Int := .error .absent
   obj : O
 
 /-- `getPostOrActor(o, key, source)` with the inline-`Create` unwrap. -/
@@ -297,7 +314,8 @@ def newActivityFromObject (w : World) (o : O) (id : Option U) : Except BErr Acti
         | .ok v => match newActor w v id with
           | .ok a => .ok a
           | .error _ => .error ()
-      .ok { kind := kind, id := id, actor := actor, target := getPostOrActor w o "object".toList id, obj := o }
+      .ok { kind := kind, id := id, actor := actor, target := getPostOrActor w o "object".toList id,
+            created := getTime w o "published".toList, obj := o }
 
 def newActivity (w : World) (input : JVal) (source : Option U) : Except BErr ActivityM :=
   match fetchUnknown w input source with
@@ -317,6 +335,24 @@ inductive Item where
   | post (p : PostM)
   | activity (a : ActivityM)
   | collection (c : CollM)
+
+/-- `Tangible.Timestamp()`. -/
+def PostM.timestamp (p : PostM) : Int := match p.created with | .ok t => t | .error _ => zeroTime
+def ActorM.timestamp (a : ActorM) : Int := match a.joined with | .ok t => t | .error _ => zeroTime
+def ActivityM.timestamp (a : ActivityM) : Int :=
+  match a.created with
+  | .ok t => t
+  | .error .wrong => zeroTime
+  | .error .absent => match a.target with
+    | .post p => p.timestamp
+    | .actor ac => ac.timestamp
+    | .failure => zeroTime
+
+def Item.timestamp : Item → Int
+  | .post p => p.timestamp
+  | .actor a => a.timestamp
+  | .activity a => a.timestamp
+  | _ => zeroTime
 
 /-- `pub.New(input, source)`: actor, then post, then activity, then collection. -/
 def new (w : World) (input : JVal) (source : Option U) : Item :=
